@@ -38,6 +38,15 @@ theorem finishVm_shape (w : World) (bp : Nat) (tx : Tx) (st : Status) (isFD : Bo
   · exact runtimeBranch_shape _ _ _ _ _ _ _ _ _
   · exact successBranch_shape _ _ _ _ _ _ _ _ hst
 
+theorem finishOwn_shape (w : World) (bp : Nat) (tx : Tx) (st : Status) (o : ExecOut)
+    (hst : st ≠ .error) : (finishOwn w bp tx st o).WellShaped w bp := by
+  unfold finishOwn
+  simp only []
+  split
+  · exact Or.inl ⟨_, rfl, rfl, rfl, rfl, rfl⟩
+  · exact runtimeBranch_shape _ _ _ _ _ _ _ _ _
+  · exact successBranch_shape _ _ _ _ _ _ _ _ hst
+
 theorem mkReceiver_status {w : World} {tx : Tx} {rcv : Copy} {st : Status} (h : mkReceiver w tx = .ok (rcv, st)) :
     st ≠ .error := by
   unfold mkReceiver at h
@@ -72,8 +81,12 @@ theorem executeTx_shape (c : Ctx) (w : World) (bp : Nat) (tx : Tx) : (executeTx 
               · exact Or.inl ⟨_, rfl, rfl, rfl, rfl, rfl⟩
               · split
                 · exact Or.inl ⟨_, rfl, rfl, rfl, rfl, rfl⟩
-                · exact finishVm_shape _ _ _ _ _ _ hst
-          · exact finishVm_shape _ _ _ _ _ _ hst
+                · split
+                  · exact finishOwn_shape _ _ _ _ _ hst
+                  · exact finishVm_shape _ _ _ _ _ _ hst
+          · split
+            · exact finishOwn_shape _ _ _ _ _ hst
+            · exact finishVm_shape _ _ _ _ _ _ hst
 
 
 /-! ### the tx executor inside a block -/
